@@ -562,6 +562,9 @@ func runC09(c *Ctx) {
 		// collect per closure-level: MaxConcurrentQuery constants of TraditionalDnsConnOpts literals, and dialing limits
 		var connLimits, dialLimits []int64
 		var dialPos []token.Pos
+		paired := map[int]int64{} // dial-limit index -> connection limit of the connections that transport dials
+		trL := p.newTracer()
+		trL.throughCalls, trL.throughParams, trL.throughFields = false, false, false
 		eachInstrDeep(nu, func(f *ssa.Function, in ssa.Instruction) {
 			ci, ok := in.(*ssa.Call)
 			if !ok {
@@ -572,6 +575,51 @@ func runC09(c *Ctx) {
 				if n, ok := constField(ci.Call.Args[0], T+"PipelineOpts", "MaxConcurrentQueryWhileDialing"); ok {
 					dialLimits = append(dialLimits, n)
 					dialPos = append(dialPos, ci.Pos())
+					// the dial function of this transport -> the NewDnsConn call in it -> its option literal's limit
+					if u, ok := ci.Call.Args[0].(*ssa.UnOp); ok {
+						for _, r := range referrers(u.X) {
+							fa, ok := r.(*ssa.FieldAddr)
+							if !ok {
+								continue
+							}
+							if k, _ := fieldKey(fa); k != T+"PipelineOpts.DialContext" {
+								continue
+							}
+							for _, r2 := range referrers(fa) {
+								st, ok := r2.(*ssa.Store)
+								if !ok {
+									continue
+								}
+								for _, o := range trL.origins(st.Val) {
+									mc, ok := o.(*ssa.MakeClosure)
+									if !ok {
+										continue
+									}
+									df, _ := mc.Fn.(*ssa.Function)
+									if df == nil {
+										continue
+									}
+									eachInstr(df, func(y ssa.Instruction) {
+										nc, ok := y.(*ssa.Call)
+										if !ok || callName(nc) != relTransport+".NewDnsConn" {
+											return
+										}
+										arg := nc.Call.Args[0]
+										if ld, ok := arg.(*ssa.UnOp); ok {
+											if fv, isFv := ld.X.(*ssa.FreeVar); isFv {
+												for _, b := range bindingOf(fv) {
+													arg = &ssa.UnOp{Op: token.MUL, X: b}
+												}
+											}
+										}
+										if cl, ok := constField(arg, T+"TraditionalDnsConnOpts", "MaxConcurrentQuery"); ok {
+											paired[len(dialLimits)-1] = cl
+										}
+									})
+								}
+							}
+						}
+					}
 				}
 			}
 		})
@@ -603,6 +651,10 @@ func runC09(c *Ctx) {
 			}
 			if n == 90 { // quic: the connection limit is the peer's stream limit; RFC 9250 recommends >= 100
 				okLim = true
+			}
+			if cl, ok := paired[i]; ok {
+				// the limit of the very connections this transport dials
+				okLim = n <= cl
 			}
 			c.check(okLim, fmt.Sprintf("dialing-limit-%d", n), dialPos[i], "dialing-phase queue limit does not exceed a connection limit used in NewUpstream",
 				"the dialing-phase queue limit exceeds every connection limit: queries queued while dialing are refused once the dial succeeds")
@@ -818,6 +870,17 @@ func checkEarlyWgOrdering(c *Ctx) {
 				c.check(okG, "wg.Wait-only-after-successful-dial@"+funcName(fn), instrPos(in), "Wait is reached only when the dial succeeded",
 					"Wait on the early-reservation wait group is reachable after a failed dial, where the queued calls never call Done: the reservation blocks forever while holding the connection and transport locks")
 			}
+			if isWg(ci, "Done") && fn.Parent() != nil && strings.HasSuffix(fn.Parent().Name(), "ExchangeReserved") {
+				deferred := false
+				eachInstr(fn.Parent(), func(y ssa.Instruction) {
+					if d, ok := y.(*ssa.Defer); ok {
+						if mc, ok := d.Call.Value.(*ssa.MakeClosure); ok && mc.Fn == ssa.Value(fn) {
+							deferred = true
+						}
+					}
+				})
+				c.check(!deferred, "wg.Done-before-exchange@"+funcName(fn), instrPos(in), "Done is not postponed to the end of the exchange", "Done runs in a deferred function of ExchangeReserved, i.e. only after the queued call's whole exchange: every later reservation (and transport Close) waits for it under the locks")
+			}
 			if isWg(ci, "Done") && strings.HasSuffix(fn.Name(), "ExchangeReserved") {
 				// on the dial-finished path (not the ctx path): dominated by the own ReserveNewQuery on the real connection
 				onCtxPath := false
@@ -846,6 +909,21 @@ func checkEarlyWgOrdering(c *Ctx) {
 						reReserved = true
 					}
 				})
+				// ... and before its (possibly long) exchange starts: later callers wait for this Done while holding the
+				// connection and transport locks
+				beforeExchange := true
+				eachInstr(fn, func(x ssa.Instruction) {
+					if c2, ok := x.(*ssa.Call); ok && c2.Call.IsInvoke() && c2.Call.Method.Name() == "ExchangeReserved" {
+						if _, after := reachAvoiding(x, func(y ssa.Instruction) bool { return y == in }, nil); after {
+							beforeExchange = false
+						}
+					}
+				})
+				if _, isDefer := in.(*ssa.Defer); isDefer {
+					beforeExchange = false
+				}
+				c.check(beforeExchange, "wg.Done-before-exchange@"+funcName(fn), instrPos(in), "Done is signalled before the exchange on the real connection starts",
+					"Done is signalled only after the queued call's exchange: every later reservation (and transport Close) waits, under the locks, for a whole exchange")
 				c.check(reReserved, "wg.Done-after-re-reserve@"+funcName(fn), instrPos(in), "a queued call takes its slot on the real connection before it signals Done",
 					"a queued call signals Done before it re-reserved on the dialled connection: a later caller released from Wait takes the slot first and the queued query is refused although the dial succeeded with an equal limit")
 			}
